@@ -22,7 +22,7 @@ import (
 
 func init() {
 	Register(&Rule{ID: "R-PAR-14", Props: []string{"C03", "C12"}, Floor: 1,
-		Doc:      "folding the per-worker record lists loses and reorders nothing: every lib/query function of type func([]RecordSet) RecordSet (found by type: MergeRecordSetList) is executed by the finite-domain abstract interpreter on concrete lists of 1 … 4 worker lists holding 0 … 2 distinct symbolic records each (120 shapes); for every shape the result must be exactly the records of list[0], list[1], … in that order — a shortcut that returns the first list unless some other worker found something must test every other list, otherwise a 3-worker join drops the rows of the third worker when the second found none (result depends on --cpu). Decides the fold, by execution of its SSA over all shapes up to the bound; longer lists are covered only in so far as the function treats them uniformly (loops)",
+		Doc:      "folding the per-worker record lists loses and reorders nothing: every lib/query function of type func([]RecordSet) RecordSet (found by type: MergeRecordSetList) is executed by the finite-domain abstract interpreter on concrete lists of 1 … 4 worker lists holding 0 … 2 distinct symbolic records each (120 shapes; thorough tier: 1 … 5 lists of 0 … 3 records, 1364 shapes); for every shape the result must be exactly the records of list[0], list[1], … in that order — a shortcut that returns the first list unless some other worker found something must test every other list, otherwise a 3-worker join drops the rows of the third worker when the second found none (result depends on --cpu). Decides the fold, by execution of its SSA over all shapes up to the bound; longer lists are covered only in so far as the function treats them uniformly (loops)",
 		Controls: []string{"CtlMergeKeepsFirstOnly"},
 		Run:      rulePar14})
 }
@@ -57,7 +57,10 @@ func rulePar14(c *Ctx) {
 		c.Unknown("anchor: fold of []RecordSet", "-", "cannot-analyse: no lib/query function of type func([]RecordSet) RecordSet (the per-worker lists are folded elsewhere — re-confirm)")
 		return
 	}
-	const maxLists, maxLen = 4, 2
+	maxLists, maxLen := 4, 2
+	if c.Tier == "thorough" {
+		maxLists, maxLen = 5, 3 // 1364 shapes
+	}
 	for _, fn := range folds {
 		c.Touch(fn)
 		listT := fn.Signature.Params().At(0).Type()
